@@ -141,9 +141,7 @@ func (m *Model) extractPratt() *prattModel {
 			}
 		}
 	}
-	if !found {
-		pm.problems = append(pm.problems, "parser.precedences table not found")
-	}
+	noTable := !found // the levels may come from a function of the token type instead: decided below from what peekPrecedence answers
 	// peekPrecedence: evaluated for every token type (constant propagation through whatever helpers it uses)
 	if w := m.globalMapWritten("parser", "precedences"); w != "" {
 		pm.problems = append(pm.problems, "the precedences table is written at "+w+": it is not a constant table")
@@ -171,6 +169,23 @@ func (m *Model) extractPratt() *prattModel {
 			if _, inTable := pm.precLit[tv]; !inTable {
 				defaults[v] = tn
 			}
+		}
+		lowestConst, haveLowest := int64(0), false
+		if c, ok := pp.Types.Scope().Lookup("LOWEST").(*types.Const); ok {
+			lowestConst, haveLowest = constant.Int64Val(c.Val())
+		}
+		switch {
+		case noTable && haveLowest && len(pm.precPeek) == len(pm.tokName):
+			// no table: every token whose level differs from the LOWEST constant is an operator of that level
+			pm.lowest = lowestConst
+			for tv, v := range pm.precPeek {
+				if v != lowestConst {
+					pm.precLit[tv] = v
+				}
+			}
+			defaults = map[int64]string{lowestConst: "(no table)"}
+		case noTable:
+			pm.problems = append(pm.problems, "parser.precedences table not found (and the levels could not be read off peekPrecedence with the LOWEST constant)")
 		}
 		switch len(defaults) {
 		case 1:
@@ -245,6 +260,67 @@ func (m *Model) extractPratt() *prattModel {
 				pm.prefix[tn] = h
 			} else {
 				pm.infix[tn] = h
+			}
+		}
+	}
+	// registrations that cannot be read off the constructor's text (a loop over a list of tokens, a map literal, helper
+	// functions): evaluate the constructor and read the two tables it leaves in the parser
+	regProblem := false
+	for _, pr := range pm.problems {
+		if strings.Contains(pr, "registration") {
+			regProblem = true
+		}
+	}
+	if regProblem || len(pm.prefix) == 0 {
+		if parT := m.namedType("parser", "Parser"); parT != nil && len(newFn.Params) == 2 {
+			ip := &Interp{m: m, useGlobals: true}
+			res, _ := ip.Run(newFn, []any{iObj{"lexer"}, constant.MakeString("x")})
+			if po, ok := res.(*iStruct); ok && po.typ == parT {
+				st := parT.Underlying().(*types.Struct)
+				tabs := map[string]map[string]*handler{}
+				good := true
+				for i := 0; i < st.NumFields(); i++ {
+					fname := canonFieldName(parT, i, st.Field(i).Name())
+					if fname != "prefixParseFns" && fname != "infixParseFns" {
+						continue
+					}
+					mp, isM := po.fields[i].(*iMap)
+					if !isM || mp.vals == nil {
+						good = false
+						continue
+					}
+					tab := map[string]*handler{}
+					for ks, v := range mp.vals {
+						kc := mp.kval[ks]
+						cl, isCl := v.(*iClosure)
+						if kc == nil || !isCl || cl.fn == nil {
+							good = false
+							continue
+						}
+						fn := cl.fn
+						if fn.Synthetic != "" {
+							if o, isF := fn.Object().(*types.Func); isF {
+								fn = m.Prog.FuncValue(o)
+							}
+						}
+						tv, _ := constant.Int64Val(kc)
+						tab[pm.tokName[tv]] = &handler{fn: fn}
+					}
+					tabs[fname] = tab
+				}
+				if good && len(tabs["prefixParseFns"]) > 0 && (len(tabs["infixParseFns"]) > 0 || len(pm.infix) == 0) {
+					pm.prefix = tabs["prefixParseFns"]
+					if len(tabs["infixParseFns"]) > 0 {
+						pm.infix = tabs["infixParseFns"]
+					}
+					var rest []string
+					for _, pr := range pm.problems {
+						if !strings.Contains(pr, "registration") {
+							rest = append(rest, pr)
+						}
+					}
+					pm.problems = rest
+				}
 			}
 		}
 	}
